@@ -251,6 +251,10 @@ def reentrant_cases(tier, seed):
                             for warm in (0, 1, 2):
                                 yield {"max_pool_size": mx, "when": when, "outer": outer, "inner_op": inner_op, "inner_fault": fault, "swallow": swallow,
                                        "ignore_exc": ie, "warm": warm}
+                                if swallow and not ie:
+                                    # the same through a RetryingClient around the PooledClient: a failing nested call is tried again
+                                    yield {"max_pool_size": mx, "when": when, "outer": outer, "inner_op": inner_op, "inner_fault": fault, "swallow": swallow,
+                                           "ignore_exc": ie, "warm": warm, "retrying": 2 + fi % 2}
 
 
 def check_reentrant(case, interruption=None):
@@ -259,8 +263,9 @@ def check_reentrant(case, interruption=None):
     net = env.net
     faultlab.preload(env.server, b"")
     sd = ReentrantSerde(case["when"], case["inner_op"], case["swallow"])
-    desc = "outer %r, its %s() runs %s on the same PooledClient (max_pool_size %r, ignore_exc %r, %d warm connection(s))%s" % (
-        case["outer"], case["when"], case["inner_op"], case["max_pool_size"], case["ignore_exc"], case["warm"],
+    desc = "outer %r, its %s() runs %s on the same PooledClient%s (max_pool_size %r, ignore_exc %r, %d warm connection(s))%s" % (
+        case["outer"], case["when"], case["inner_op"], " - both through a RetryingClient(attempts=%d) around it -" % case["retrying"] if case.get("retrying") else "",
+        case["max_pool_size"], case["ignore_exc"], case["warm"],
         ", the inner call hits %r (%s by the serializer)" % (case["inner_fault"], "swallowed" if case["swallow"] else "not caught") if case["inner_fault"] else "")
     with virtual_time(env.clock):
         c = env.client("pooled", max_pool_size=case["max_pool_size"], serde=sd, ignore_exc=case["ignore_exc"], default_noreply=False)
@@ -274,7 +279,11 @@ def check_reentrant(case, interruption=None):
             env.call(ops.invoke, c, case["outer"])
             sd.inner_op = sd.inner_op_saved
             del sd.inner_results[:]
-        sd.client = c
+        user = c
+        if case.get("retrying"):
+            from pymemcache.client.retrying import RetryingClient
+            user = RetryingClient(c, attempts=case["retrying"])
+        sd.client = user
         before = {s.id for s in net.open_sockets()}
         ncall = env.ncalls
         if case["inner_fault"]:
@@ -288,7 +297,7 @@ def check_reentrant(case, interruption=None):
             if case["when"] == "deserialize" and "reply" in f:
                 f["reply"] = 1
             net.plan([f])
-        out = env.call(ops.invoke, c, case["outer"])
+        out = env.call(ops.invoke, user, case["outer"])
         where = "%s (outcome %r, inner outcomes %r)" % (desc, c01._short(out), [c01._short(x) for x in sd.inner_results])
         if interruption:
             hit = [x for x in net.fired if x["fault"].get("call") == ncall and x["fault"].get("what") in interruption]
